@@ -64,8 +64,11 @@ def universe(tier):
                     for es in ((), ((0, 1),), ((1, 0),)):
                         for gap in (0, 2):
                             for lim in (None, ("r", "dailymax", "2h")):
-                                yield {"n": 3, "L": 60, "eff": 1.0, "ef": ef, "al": al, "es": es, "pr": pr, "gap": gap, "pin": None,
-                                       "leave": False, "lim": lim, "z": None, "wrap": wrap}
+                                for wrap2 in (False, True):
+                                    if wrap2 and (lim or gap):
+                                        continue
+                                    yield {"n": 3, "L": 60, "eff": 1.0, "ef": ef, "al": al, "es": es, "pr": pr, "gap": gap, "pin": None,
+                                           "leave": False, "lim": lim, "z": None, "wrap": wrap, "wrap2": wrap2}
     for pl in plans:
         n = pl["n"]
         if pl.get("chains"):
@@ -119,13 +122,15 @@ def to_spec(it):
     if it.get("wrap"):
         # the first n-1 tasks live in a container g; the last task depends on the CONTAINER (plus the listed edges)
         inner = tasks[:-1]
+        pre = "g.h." if it.get("wrap2") else "g."
         for t in tasks:
             for d in t.get("deps") or []:
                 if d["ref"] in [x["id"] for x in inner]:
-                    d["ref"] = "g." + d["ref"]
+                    d["ref"] = pre + d["ref"]
         last = tasks[-1]
         last.setdefault("deps", []).append({"ref": "g"} if not it["gap"] else {"ref": "g", "gap": f"{it['gap'] * L}min"})
-        tasks = [{"id": "g", "children": inner}, last] if it["wrap"] == "before" else [last, {"id": "g", "children": inner}]
+        box = {"id": "g", "children": inner if not it.get("wrap2") else [{"id": "h", "children": inner}]}   # wrap2: the last leaf closes two levels at once
+        tasks = [box, last] if it["wrap"] == "before" else [last, box]
     lim = it["lim"]
     if lim:
         where, kind, val = lim
